@@ -17,3 +17,11 @@ claim(
     "typestate (STALE->FRESH per storage cell) over the abstract interpreter's store events with symbolic region coverage; effect analysis for writes outside the instance",
     "DESIGN.md section 2 C03",
 )
+
+claim(
+    "C19",
+    "Static: decides the index bookkeeping behind composition of surfaces for all surface lists and mesh sizes: running offsets start at 0, advance by exactly the width of the block they address (polynomial identity), blocks tile axes of length sum-of-advances, and per-surface values do not leak from one loop into a later loop. Does not decide permutation / splitting invariance of numerical results.",
+    TB,
+    "symbolic prefix-sum analysis of running offsets (loop-carried symbolic integers, uninterpreted linear SUM over the list) and def-use analysis of per-element values across loops",
+    "DESIGN.md section 2 C19",
+)
